@@ -58,7 +58,7 @@ theorem dev_cell_rt (o : Opts) (P C self : List Desc) (m : Message) (dv : DevFie
     simp only [Bool.and_eq_true, beq_iff_eq] at hkey
     have hds := hdesc d hdC
     simp only [descScopeB, Bool.and_eq_true, Bool.not_eq_true', beq_iff_eq] at hds
-    obtain ⟨⟨⟨⟨⟨⟨hne, hunk⟩, _⟩, _⟩, _⟩, _⟩, _⟩ := hds
+    obtain ⟨⟨⟨⟨hne, hunk⟩, _⟩, _⟩, _⟩ := hds
     -- the writer finds d (most recent of the pair, in P ++ C ++ self)
     have hW : findDesc (P ++ C ++ self) dv.devIdx dv.num = some d := by
       unfold findDesc
